@@ -1186,6 +1186,12 @@ func c30Exec(fix *c30Fixture) func(x *vfkit.X, c c30Case) {
 		for i := range idents {
 			names[i] = fmt.Sprintf("%s%d", r.prefix, i)
 			idents[i] = newGrainIdentity(&c30Grain{}, names[i])
+			// GrainIdentity.String() fills its cache lazily and without
+			// synchronization; the identity is shared by the threads of the case,
+			// so the cache is filled here, before they start (a torn string crashed
+			// the harness once)
+			_ = idents[i].String()
+			_ = idents[i].Validate()
 		}
 		fix.reg.run.Store(r)
 
